@@ -100,3 +100,7 @@ Proof.
   unfold is_expected. destruct (find_tid i tid) as [r|]; [|discriminate].
   destruct (addr_match (r_to r) from); [|discriminate]. intros _. cbn [snd]. unfold inflight. now rewrite find_after_remove.
 Qed.
+
+(* a request sent to the unspecified ip is answered from whatever ip the host gave that socket: the port decides *)
+Theorem unspecified_destination_port_only port from : addr_match (0, port) from = (port =? snd from).
+Proof. unfold addr_match. cbn [fst snd]. rewrite N.eqb_refl. cbn. apply Bool.andb_true_r. Qed.
